@@ -164,7 +164,7 @@ class GenResult:
     trusted_scan: list     # occurrences of external_body / assume_specification / admit / assume
 
 class Extractor:
-    def __init__(self, repo, spec_dir, unit, usize_bytes=8, canary=False, only_props=None):
+    def __init__(self, repo, spec_dir, unit, usize_bytes=8, canary=False, only_props=None, force_external=None):
         self.repo = repo
         self.spec = Spec(spec_dir)
         self.unit_name = unit
@@ -179,6 +179,7 @@ class Extractor:
         self.macros = {}
         self.used_fn_specs = set()
         self.used_impl_specs = set()
+        self.force_external = dict(force_external or {})   # (module, fn path) -> reason
 
     # ---- helpers
     def rule(self, rid, n=1):
@@ -414,10 +415,14 @@ class Extractor:
         was edited), fall back to an external_body version that keeps only the signature-level contract and is
         flagged `lost` (every property that relies on this function becomes UNDECIDED, the others are unaffected)"""
         snap_clauses = dict(self.clauses); snap_rules = dict(self.rules_used); snap_fns = len(self.fns)
+        fpath_ = (container + '::' + item.name) if container else item.name
         try:
+            if (module, fpath_) in self.force_external:
+                raise ExtractError(self.force_external[(module, fpath_)])
             return self._process_fn(toks, item, module, container, fnspec, in_trait_impl, 'full')
         except (ExtractError, RsxError) as e:
-            if not fnspec: raise
+            if not fnspec and (module, fpath_) not in self.force_external: raise
+            fnspec = fnspec or {'path': fpath_}
             self.clauses = snap_clauses; self.rules_used = snap_rules; del self.fns[snap_fns:]
             fs = {k: v for k, v in fnspec.items() if k in ('path', 'ret', 'requires', 'ensures', 'attrs')}
             fs['external_body'] = True
@@ -497,7 +502,7 @@ class Extractor:
             add(fp.sig_end, ''.join(sigtxt))
         if rec.has_body:
             entry = sp.get('entry', '')
-            if self.canary and req:
+            if self.canary and req and not rec.external:
                 entry = 'proof { assert(false); } /*#CANARY:%s*/ ' % path + entry
             if entry:
                 add(fitem.body_open + 1, '\n' + entry + '\n')
